@@ -34,6 +34,10 @@ def basis_tensor(field, grad, a, i, q, c, slot_shape, R=None):
         return N
     dh = reg.dhdX[a, :, q, c if reg.dhdX.shape[-1] > 1 else 0]
     N = np.zeros(slot_shape)
+    if len(slot_shape) == 1 and d == 1:
+        # a scalar field's gradient-type test function against a flux given as a plain vector (no component axis of length one)
+        N[: len(dh)] = dh[: slot_shape[0]]
+        return N
     N[i, : len(dh)] = dh[: slot_shape[1]]
     if kind_of(field) == "FieldAxisymmetric" and slot_shape[0] == 3 and i == 1:
         N[2, 2] = h / R
